@@ -142,6 +142,61 @@ pub fn run(ctx: &mut Ctx) {
         ctx.case("differential_reader_auth", json!({"registry": i % 3, "original": ra_a, "restored": ra_b}), ciborium::Value::Bool(same), None, Some(("c14.spec_same", vec![])), true);
         ctx.rng = rng;
     }
+    // device keys on every curve, and MAC device authentication: a session restored BEFORE prepare_response, and one
+    // restored MID-SIGNING, must offer the same payloads and hand out the same response as the untouched object
+    {
+        use isomdl::definitions::device_key::cose_key::{EC2Curve, EC2Y, OKPCurve};
+        use isomdl::definitions::CoseKey;
+        let mut kinds: Vec<(&str, CoseKey, bool)> = vec![];
+        for mac in [false, true] {
+            kinds.push(("p256", CoseKey::EC2 { crv: EC2Curve::P256, x: vec![1; 32], y: EC2Y::Value(vec![2; 32]) }, mac));
+            kinds.push(("p384", CoseKey::EC2 { crv: EC2Curve::P384, x: vec![1; 48], y: EC2Y::Value(vec![2; 48]) }, mac));
+            kinds.push(("p521", CoseKey::EC2 { crv: EC2Curve::P521, x: vec![1; 66], y: EC2Y::Value(vec![2; 66]) }, mac));
+            kinds.push(("p256-signbit", CoseKey::EC2 { crv: EC2Curve::P256, x: vec![1; 32], y: EC2Y::SignBit(true) }, mac));
+            kinds.push(("ed25519", CoseKey::OKP { crv: OKPCurve::Ed25519, x: vec![3; 32] }, mac));
+            kinds.push(("ed448", CoseKey::OKP { crv: OKPCurve::Ed448, x: vec![3; 57] }, mac));
+        }
+        for (name, key, mac) in kinds {
+            let mut rng = ctx.rng.clone();
+            let pki = crate::pki::Pki::generate(&mut rng);
+            let nsm: std::collections::BTreeMap<String, std::collections::BTreeMap<String, ciborium::Value>> =
+                [(NS.to_string(), [("family_name".to_string(), ciborium::Value::Text("Doe".into())), ("age_over_18".to_string(), ciborium::Value::Bool(true))].into_iter().collect())].into_iter().collect();
+            let m = issue_with_key(&pki, MDL, nsm, isomdl::definitions::DigestAlgorithm::SHA256, false, key);
+            let first: std::collections::BTreeMap<String, Vec<String>> = [(NS.to_string(), vec!["family_name".to_string(), "age_over_18".to_string()])].into_iter().collect();
+            let Ok(e) = establish(documents_of(vec![m]), None, &first, Default::default(), Default::default()) else { ctx.rng = rng; continue };
+            // MAC device authentication is a stored setting of the session object
+            let dev0 = if mac {
+                let mut v = state_value(&e.dev.stringify().expect("stringify"));
+                if let Some(slot) = crate::rauth::map_get_mut(&mut v, "device_auth_type") { *slot = ciborium::Value::Text("Mac0".into()); }
+                match device::SessionManager::parse(base64::encode(crate::runner::to_bytes(&v))) { Ok(d) => d, Err(_) => { ctx.count("curves_restore:mac-state-refused"); ctx.rng = rng; continue } }
+            } else { e.dev };
+            let items = e.first_outcome.items_request.clone();
+            let permitted: device::PermittedItems = [(MDL.to_string(), first.clone().into_iter().collect())].into_iter().collect();
+            let run = |mut d: device::SessionManager, restore_before: bool, restore_mid: bool| -> Vec<Vec<u8>> {
+                let mut out: Vec<Vec<u8>> = vec![];
+                let rs = |d: device::SessionManager| -> device::SessionManager { match d.stringify().and_then(device::SessionManager::parse) { Ok(x) => x, Err(_) => d } };
+                if restore_before { d = rs(d); }
+                device::SessionManager::prepare_response(&mut d, &items, permitted.clone());
+                if restore_mid { d = rs(d); }
+                let mut guard = 0;
+                while let Some((_, p)) = d.get_next_signature_payload().map(|(u, p)| (u, p.to_vec())) {
+                    out.push(p);
+                    let _ = d.submit_next_signature(vec![9; 64]);
+                    guard += 1; if guard > 4 { break; }
+                }
+                out.push(d.retrieve_response().unwrap_or_default());
+                out.push(d.stringify().unwrap_or_default().into_bytes());
+                out
+            };
+            let a = catch(|| run(dev0.clone(), false, false));
+            let b = catch(|| run(dev0.clone(), true, false));
+            let c = catch(|| run(dev0.clone(), false, true));
+            let same = a.is_ok() && a == b && a == c;
+            ctx.count(&format!("curves_restore:{name}:mac={mac}:{}", if same { "same" } else { "DIFFERENT" }));
+            ctx.case("differential_curves", json!({"device_key": name, "mac": mac, "payloads": a.as_ref().map(|v| v.len()).unwrap_or(0)}), ciborium::Value::Bool(same), None, Some(("c14.spec_same", vec![])), true);
+            ctx.rng = rng;
+        }
+    }
     // engagement-phase objects
     for _ in 0..ctx.budget(10, 200) {
         let mut rng = ctx.rng.clone();
